@@ -145,6 +145,30 @@ def classify_callsite(cs, text_lines):
     return None
 
 
+MAT_CLASS = {"int": "numeric", "size_t": "numeric", "unsigned char": "numeric", "float": "double", "double": "double", "char": "char", "string": "char",
+             "bool": "logical", "Vector": "double", "Matrix": "double", "gtsam::Vector": "double", "gtsam::Matrix": "double"}
+
+
+def guard_classes(lines, lineno):
+    """MATLAB classes demanded by the guard that protects a call site (None when the site has no argument guard)"""
+    for ln in range(lineno, max(-1, lineno - 6), -1):
+        if re.search(r"(?:nargin|length\(varargin\)) == \d+", lines[ln]):
+            return re.findall(r"isa\(varargin\{\d+\},\s*'([^']+)'\)", lines[ln])
+    return None
+
+
+def routine_classes(body):
+    """MATLAB classes of the values a generated routine unwraps from in[k], k in argument order (None = a type this reader does not know)"""
+    out = []
+    for m in re.finditer(r"unwrap(_shared_ptr|_enum)?<\s*([^>]*(?:<[^>]*>)?[^>]*?)\s*>\(in\[(\d+)\]", body):
+        kind, ty, idx = m.group(1), m.group(2).strip(), int(m.group(3))
+        if kind:
+            out.append((idx, ty.replace("::", ".")))
+        else:
+            out.append((idx, MAT_CLASS.get(ty)))
+    return [c for _i, c in sorted(out)]
+
+
 def _func_header(lines, ln):
     for i in range(ln, -1, -1):
         if re.match(r"\s*function\s", lines[i]):
@@ -260,6 +284,13 @@ def check_dispatch(files, cpp, classes, nss, funcs, boost, module="mod"):
             ok = ok and rr[2] == member and rr[3] == arity
         if not ok:
             problems.append("id %d: call site is %r but the dispatched routine %s is %r" % (s["id"], role, rn, rr[:4]))
+        if kind in ("method", "static", "function", "constructor"):
+            gc = guard_classes(lines, s["lineno"])
+            rc = routine_classes(rnames[rn])
+            if kind == "method":
+                rc = rc[1:]                        # in[0] is the object
+            if gc is not None and None not in rc and len(gc) == len(rc) and gc != rc and not (kind == "constructor" and not gc):
+                problems.append("id %d: the call site guards for %r but routine %s unwraps %r" % (s["id"], gc, rn, rc))
     want = sorted(map(repr, expected_roles(classes, nss, funcs, boost)))
     got = sorted(map(repr, [r for r in got_roles if r[0] not in ("Other", "Root")]))
     if got != want:
